@@ -56,6 +56,9 @@ type Solvers struct {
 	stats   SolverStats
 	timeout time.Duration
 	confirm bool // re-ask unsat of a second solver
+	auto    bool // choose first solver by query shape
+	fast    *proc
+	fastMiss int
 	Disagreements int
 }
 
@@ -81,12 +84,16 @@ func solverArgv(name string, timeoutMs int) ([]string, bool) {
 }
 
 func NewSolvers(ctx *TermCtx, order []string, timeout time.Duration, confirm bool) *Solvers {
-	s := &Solvers{ctx: ctx, cache: map[string]cacheEnt{}, timeout: timeout, confirm: confirm}
+	s := &Solvers{ctx: ctx, cache: map[string]cacheEnt{}, timeout: timeout, confirm: confirm, auto: true}
 	s.stats.Queries = map[string]int{}
 	s.stats.Wall = map[string]float64{}
 	for _, n := range order {
 		argv, nofp := solverArgv(n, int(timeout/time.Millisecond))
 		s.procs = append(s.procs, &proc{name: n, argv: argv, noFP: nofp, timeout: timeout})
+	}
+	if len(order) > 0 && order[0] == "z3new" {
+		argv, _ := solverArgv("cvc5int", 300)
+		s.fast = &proc{name: "cvc5int-fast", argv: argv, noFP: true, timeout: 300 * time.Millisecond}
 	}
 	return s
 }
@@ -94,6 +101,9 @@ func NewSolvers(ctx *TermCtx, order []string, timeout time.Duration, confirm boo
 func (s *Solvers) Close() {
 	for _, p := range s.procs {
 		p.kill()
+	}
+	if s.fast != nil {
+		s.fast.kill()
 	}
 }
 
@@ -362,7 +372,33 @@ func (s *Solvers) Check(asserts []*Term, wantModel bool) (Result, Model, string)
 		}
 	}
 	why := ""
-	for _, p := range s.procs {
+	procs := s.procs
+	// arithmetic-only queries (no bitwise operators): try int-blasting first with a short
+	// timeout (20x faster on div/mod/compare reasoning, probe: hmap bucket queries
+	// 43 ms -> 1.6 ms); adaptive: switched off for this worker after 3 consecutive misses
+	tryFast := false
+	if !hasFP && s.auto && s.fast != nil && s.fastMiss < 3 {
+		bit := false
+		for _, a := range as {
+			if a.hasBit {
+				bit = true
+			}
+		}
+		tryFast = !bit
+	}
+	if tryFast {
+		t0 := time.Now()
+		r, m, _ := s.fast.check(as, vars)
+		s.stats.Queries["cvc5int"]++
+		s.stats.Wall["cvc5int"] += time.Since(t0).Seconds()
+		if r != Unknown {
+			s.fastMiss = 0
+			s.cache[key] = cacheEnt{r, m}
+			return r, m, ""
+		}
+		s.fastMiss++
+	}
+	for _, p := range procs {
 		if hasFP && p.noFP {
 			continue
 		}
